@@ -378,7 +378,7 @@ def corpus():
 def run(ctx):
     ctx.coq_props()
     rng = ctx.rng
-    n_direct, n_batch, n_cj = (900, 500, 40) if ctx.tier == "quick" else (7000, 4000, 300)
+    n_direct, n_batch, n_cj = (700, 350, 30) if ctx.tier == "quick" else (7000, 4000, 300)
     cases = corpus()
     while len(cases) < n_direct:
         cases.append(gen_direct(rng))
